@@ -5,6 +5,7 @@
 package main
 
 import (
+	"bytes"
 	"fmt"
 	"strings"
 	"time"
@@ -20,7 +21,7 @@ import (
 const addrA, addrB = "127.0.0.1:1001", "127.0.0.1:1002"
 
 type params struct {
-	kind   string // burst | two-senders | first-contact | both-ways | ask | idle-gap | idle-gap-noretry (reconnect limit 0)
+	kind   string // bytes-burst (messages with a raw []byte payload, kept by the receiver and compared after the whole burst) | burst | two-senders | first-contact | both-ways | ask | idle-gap | idle-gap-noretry (reconnect limit 0)
 	n      int
 	size   int    // payload size
 	chunks string // all | small
@@ -100,8 +101,18 @@ func scenario(p params, bounds []int) *vexp.Scenario {
 			wb.Start()
 			var atB, atA []got
 			var replies []string
+			var keptAtB []*vcodec.BytesMsg
 			recv := func(store *[]got) func(a *vsys.Act, ctx vivid.ActorContext, m any) {
 				return func(a *vsys.Act, ctx vivid.ActorContext, m any) {
+					if bm, ok := m.(*vcodec.BytesMsg); ok {
+						keptAtB = append(keptAtB, bm) // kept as delivered; judged after the whole burst
+						snd := ""
+						if s := ctx.Sender(); s != nil {
+							snd = s.GetAddress() + s.GetPath()
+						}
+						*store = append(*store, got{bm.ID, true, snd})
+						return
+					}
 					cm, ok := m.(*vcodec.CustomMsg)
 					if !ok {
 						return
@@ -131,6 +142,10 @@ func scenario(p params, bounds []int) *vexp.Scenario {
 							seq[name]++
 							id := fmt.Sprintf("%s.%d", name, seq[name])
 							sent[name] = append(sent[name], id)
+							if p.kind == "bytes-burst" {
+								ctx.Tell(target, &vcodec.BytesMsg{ID: id, B: bytes.Repeat([]byte{byte(seq[name])}, p.size)})
+								continue
+							}
 							ctx.Tell(target, msg(id, p.size))
 						}
 					case m.ID == "ask":
@@ -156,7 +171,7 @@ func scenario(p params, bounds []int) *vexp.Scenario {
 			mkSender(wb, "t1", echoA)
 			vrt.QuiesceNoTimers()
 			switch p.kind {
-			case "burst":
+			case "burst", "bytes-burst":
 				wa.Sys.Tell(wa.Ref("/s1"), vsys.Msg{ID: "go"})
 			case "two-senders", "first-contact":
 				wa.Sys.Tell(wa.Ref("/s1"), vsys.Msg{ID: "go"})
@@ -219,6 +234,17 @@ func scenario(p params, bounds []int) *vexp.Scenario {
 					}
 				}
 			}
+			for _, bm := range keptAtB {
+				var k int
+				fmt.Sscanf(bm.ID, "s1.%d", &k)
+				if len(bm.B) != p.size || (p.size > 0 && !bytes.Equal(bm.B, bytes.Repeat([]byte{byte(k)}, p.size))) {
+					head := bm.B
+					if len(head) > 8 {
+						head = head[:8]
+					}
+					x.Fail("delivered-intact", "the payload of %s, inspected after the burst, is no longer what was sent: %d bytes starting % x, expected %d bytes of %02x", bm.ID, len(bm.B), head, p.size, byte(k))
+				}
+			}
 			check("B:/echo", atB, map[string]string{"s1": addrA + "/s1", "s2": addrA + "/s2"})
 			check("A:/echo", atA, map[string]string{"t1": addrB + "/t1"})
 			if p.kind == "ask" {
@@ -265,6 +291,12 @@ func build(tier string) []*vexp.Scenario {
 			if size <= 200 {
 				out = append(out, scenario(params{"burst", n, size, "small"}, b1))
 			}
+		}
+	}
+	for _, size := range []int{0, 1, 64, 4000, 4096, 5000} {
+		out = append(out, scenario(params{"bytes-burst", 3, size, "all"}, b0))
+		if size <= 64 {
+			out = append(out, scenario(params{"bytes-burst", 3, size, "small"}, b1))
 		}
 	}
 	b2 := []int{0, 1, 2}
